@@ -134,7 +134,13 @@ impl SymbolsExportsModule {
         files: &mut R,
         visited: &mut Vec<BffFileName>,
     ) -> Option<Rc<SymbolExport>> {
-        let known = self.named_values.get(name).cloned().or_else(|| {
+        // explicit exports (also `export { x } from`) shadow the names brought in by `export *`
+        let explicit = self
+            .named_values
+            .get(name)
+            .or_else(|| self.named_unknown.get(name))
+            .cloned();
+        explicit.or_else(|| {
             for it in &self.extends {
                 if visited.contains(it) {
                     continue;
@@ -147,9 +153,7 @@ impl SymbolsExportsModule {
                 }
             }
             None
-        });
-
-        known.or_else(|| self.named_unknown.get(name).cloned())
+        })
     }
 
     pub fn insert_type(&mut self, name: String, export: Rc<SymbolExport>) {
@@ -182,7 +186,13 @@ impl SymbolsExportsModule {
         files: &mut R,
         visited: &mut Vec<BffFileName>,
     ) -> Option<Rc<SymbolExport>> {
-        let known = self.named_types.get(name).cloned().or_else(|| {
+        // explicit exports (also `export { x } from`) shadow the names brought in by `export *`
+        let explicit = self
+            .named_types
+            .get(name)
+            .or_else(|| self.named_unknown.get(name))
+            .cloned();
+        explicit.or_else(|| {
             for it in &self.extends {
                 if visited.contains(it) {
                     continue;
@@ -195,9 +205,7 @@ impl SymbolsExportsModule {
                 }
             }
             None
-        });
-
-        known.or_else(|| self.named_unknown.get(name).cloned())
+        })
     }
 
     pub fn extend(&mut self, other: BffFileName) {
